@@ -7,7 +7,7 @@
    schedule of all the goroutines holding ends of the streams; the arguments [ch] of
    ORecv / OFwd are the outcomes of Go's [select]s.  "forall fuel ops" therefore quantifies
    over every tree, every item sequence, every capacity and every interleaving. *)
-From Eino Require Import Base.Util Model.Stream Proofs.Stream Proofs.StreamRel Proofs.StreamWf Proofs.StreamClose Proofs.StreamLink Proofs.StreamSem Proofs.StreamEof Proofs.StreamOnce Proofs.StreamTrace Proofs.StreamRank Proofs.StreamTotal.
+From Eino Require Import Base.Util Model.Stream Proofs.Stream Proofs.StreamRel Proofs.StreamWf Proofs.StreamClose Proofs.StreamLink Proofs.StreamSem Proofs.StreamEof Proofs.StreamOnce Proofs.StreamTrace Proofs.StreamRank Proofs.StreamTotal Proofs.StreamProg.
 
 (* ------------------------------------------------------------------ base streams *)
 
@@ -246,6 +246,22 @@ Theorem sent_log_is_trace : forall fuel ops bs G, run fuel init_state ops = (bs,
 Proof. exact run_sent_log_is_trace. Qed.
 Print Assumptions sent_log_is_trace.
 
+(* delivery_on_the_trace: the tree theorems stated on the observable trace alone.  In every
+   legal run, for every live reader handle: the items its Recv calls returned are an
+   order-preserving interleaving of prefixes of the strands computed from the items the Send
+   calls accepted (through the conversions, ErrNoValue dropped), a complete interleaving — every
+   accepted item exactly once — if one of its Recv calls returned io.EOF.  This is the predicate
+   the correspondence check evaluates on the histories of the implementation. *)
+Theorem delivery_on_the_trace : forall fuel ops bs G,
+  run fuel init_state ops = (bs, G) -> legal_run fuel ops ->
+  forall h H, nth_error (st_handles G) h = Some H -> h_live H = true ->
+  exists strs,
+    (exists N, forall M, N <= M -> strands M G (fun sid => sent_trace sid ops bs) (h_rd H) = Some strs)
+    /\ is_interleaving_of false (recv_trace h ops bs) strs = true
+    /\ (eof_trace h ops bs = true -> is_interleaving_of true (recv_trace h ops bs) strs = true).
+Proof. exact run_tree_delivery_trace. Qed.
+Print Assumptions delivery_on_the_trace.
+
 (* ------------------------------------------------------------------ close propagation *)
 
 (* [legal_run2 fuel ops]: a legal run in which, moreover, user code closes every reader at
@@ -301,6 +317,44 @@ Theorem forwarder_terminates_on_close : forall fuel G k F d x ch,
          /\ nth_error (st_fwds G2) k = Some F2 /\ f_st F2 = FDone.
 Proof. exact forwarder_stops_when_told. Qed.
 Print Assumptions forwarder_terminates_on_close.
+
+(* ------------------------------------------------------------------ no deadlock among the library's goroutines *)
+
+(* recv_block_drained: a Recv that would block (the model's PBlock: the Go call parks) leaves the
+   reader *drained*: every base stream it is currently selecting on is empty with its send side
+   open, recursively through conversions (after skipping what could be skipped) and through the
+   shared list of a copy parent (cursor at the end, pull from the source blocked). *)
+Theorem recv_block_drained : forall fuel ops bs G, run fuel init_state ops = (bs, G) ->
+  forall h ch G', do_op fuel G (ORecv h ch) = (BRecv PBlock, G') ->
+  exists H', nth_error (st_handles G') h = Some H' /\ h_live H' = true /\ Drained (st_store G') (h_rd H').
+Proof. exact run_recv_block_drained. Qed.
+Print Assumptions recv_block_drained.
+
+(* no_internal_deadlock: in every reachable state (every schedule, no hypothesis on the use of
+   the API) in which every forwarder goroutine is blocked — in its Recv without progress, or in
+   its Send — or has finished, a live reader on which Recv blocks derives, through forwarders
+   and copy parents, from a pipe of the user that is empty and whose writer has not closed; and
+   a Send on that pipe cannot block (it is accepted or answered "closed").  Contrapositive: when
+   a Recv blocks and no such pipe exists, some forwarder goroutine can take a step — the
+   goroutines of the library never wait for each other in a cycle, a blocked reader always
+   waits for a writer that is free to act.  (Mutexes / sync.Once inside one call are below the
+   granularity of the model: watchdog + race detector on every run.) *)
+Theorem no_internal_deadlock : forall fuel ops bs G, run fuel init_state ops = (bs, G) ->
+  (forall F, In F (st_fwds G) -> fwd_blocked fuel G F) ->
+  forall h H, nth_error (st_handles G) h = Some H -> h_live H = true ->
+    Drained (st_store G) (h_rd H) ->
+    exists u s, Derives G (h_rd H) u /\ nth_error (streams (st_store G)) u = Some s /\ s_user s = true
+                /\ s_buf s = [] /\ s_sclosed s = false /\ forall x, fst (stream_send s x) <> SBlock.
+Proof. exact run_drained_waits. Qed.
+Print Assumptions no_internal_deadlock.
+
+(* send_block_released_by_recv: a Send blocks only on a full buffer with both sides open, and the
+   next receive from that stream makes room for it (buffer bound: pipe_fifo) *)
+Theorem send_block_released_by_recv : forall s x, List.length (s_buf s) <= eff_cap (s_cap s) ->
+  fst (stream_send s x) = SBlock ->
+  exists y s1, stream_recv s = (PItem y, s1) /\ fst (stream_send s1 x) = SOk.
+Proof. exact send_block_reader_ready. Qed.
+Print Assumptions send_block_released_by_recv.
 
 (* ------------------------------------------------------------------ non-vacuity *)
 
@@ -366,3 +420,24 @@ Proof. apply (all_closedb_sound 5). vm_compute. reflexivity. Qed.
 Example ex_send_told :
   fst (do_op 50 (snd (run 50 init_state ex_ops)) (OSend 0 (IVal 9%N))) = BSend SClosed.
 Proof. vm_compute. reflexivity. Qed.
+
+(* a blocked reader: Merge(Convert(pipe), array) after the array part has been read.  The
+   forwarder goroutine is blocked in its Recv on the empty pipe, the merged reader is drained:
+   the hypotheses of no_internal_deadlock hold in a state with a blocked Recv *)
+Definition ex2_ops : list op :=
+  [ OPipe 1; OConv 0 (fun v => if N.eqb v 1 then CSkip else CVal (v + 10)%N); OArray [7%N]; OMerge [1; 2];
+    OFwd 0 []; ORecv 3 []; ORecv 3 [] ].
+
+Example ex2_obs : fst (run 50 init_state ex2_ops) =
+  [BNew [0]; BNew [1]; BNew [2]; BNew [3]; BStep; BRecv (PItem (IVal 7%N)); BRecv PBlock].
+Proof. vm_compute. reflexivity. Qed.
+
+Example ex2_blocked : exists bs G, run 50 init_state ex2_ops = (bs, G)
+  /\ (forall F, In F (st_fwds G) -> fwd_blocked 50 G F)
+  /\ exists H, nth_error (st_handles G) 3 = Some H /\ h_live H = true /\ Drained (st_store G) (h_rd H).
+Proof.
+  eexists. eexists. split; [vm_compute; reflexivity|]. split.
+  - intros F [<-|[]]. unfold fwd_blocked. simpl. exists [], []. vm_compute. reflexivity.
+  - eexists. split; [reflexivity|]. split; [reflexivity|]. simpl. apply D_mul; [discriminate|].
+    intros i sid [<-|[]] Hn; simpl in Hn; inversion Hn; subst; reflexivity.
+Qed.
